@@ -359,11 +359,16 @@ pub fn check_input(f: &Fmt, input: &[u8], prop: &str, rep: &mut Report) {
             }
         }
     }
-    if (all || prop == "C01" || prop == "C14") && f.docs.iter().any(|d| *d == input) {
+    let is_doc = f.docs.iter().any(|d| *d == input);
+    if (all || prop == "C01" || prop == "C14") && (is_doc || (!input.is_empty() && f.docs.iter().any(|d| d.starts_with(input)))) {
         // curated documents: every combination of chunk size and read size up to 9 (buffer realignments leave stale bytes behind the
         // valid data; a scanner that looks one byte too far reads them)
+        // truncated curated documents (the tail of the input is where fast paths hand over to bytewise code): 5 of the 9 read sizes
         for chunk in 1..=9usize {
             for step in 1..=9usize {
+                if !is_doc && !matches!(step, 1 | 2 | 3 | 5 | 8) {
+                    continue;
+                }
                 let s = Sched { chunk, mode: Mode::Step(step), fail_at: None, interrupt: 0 };
                 let o = run(f, input, s);
                 rep.runs += 1;
@@ -502,6 +507,9 @@ const BTOR2_DOCS: &[&[u8]] = &[
     b"1 sort bitvec 99999999999999999999999\n",
     b"1 eq 1 2 3\n2 concat 1 2 3 name\n",
     b"1 sort bitvec 1\n; comment\n\n\n\n3 bogus 1 2\n",
+    // declared counts far beyond what the line holds (C05: a declared count must not size anything)
+    b"1 sort bitvec 1\n2 input 1\n3 justice 40000000 2\n",
+    b"1 sort bitvec 1\n2 input 1\n3 justice 18446744073709551615 2 2\n",
 ];
 const CNF_TOKENS: &[&[u8]] = &[
     b"1", b"-1", b"2", b"-2", b"3", b"0", b"-0", b"00", b"007", b"-", b"p", b"cnf", b"c", b"c x", b"\n", b"\n", b"\r\n", b" ", b"\t", b"x", b"2147483647", b"2147483648", b"-2147483648", b"-2147483649",
@@ -684,7 +692,7 @@ pub fn inputs_of(f: &Fmt, tier: &str, seed: u64) -> (Vec<Vec<u8>>, String) {
     inputs.sort();
     inputs.dedup();
     let bound = format!(
-        "{}: token sequences of length <= {} over {} tokens, {} curated documents with all prefixes and single-byte substitutions, {} seeded random token sequences; schedules (chunk,read) (16384,all) (1,1) (2,3) (3,2) (7,all) (16384,line by line) and two with transient Interrupted results; for C04 a fault at every offset (every third one inside long documents) with error kinds Other/UnexpectedEof/BrokenPipe/TimedOut",
+        "{}: token sequences of length <= {} over {} tokens, {} curated documents with all prefixes and single-byte substitutions (C01/C14: the documents under all 81 chunk x read sizes 1..9, their prefixes under 45 of them, the source leaving scratch bytes behind the data it returns), {} seeded random token sequences; schedules (chunk,read) (16384,all) (1,1) (2,3) (3,2) (7,all) (16384,line by line) and two with transient Interrupted results; for C04 a fault at every offset (every third one inside long documents) with error kinds Other/UnexpectedEof/BrokenPipe/TimedOut",
         f.name, n, toks.len(), f.docs.len(), extra
     );
     (inputs, bound)
